@@ -317,7 +317,7 @@ class TGen:
         if depth <= 0:
             a = G.gen_atom(rng, "readable")
             return a
-        if r < 0.42 and level < 2:
+        if r < 0.42 and level < 3:
             self.feat.add("nested-quasiquote")
             return G.expr(G.sym("quasiquote"), self.node(depth - 1, level + 1, True))
         if r < 0.47:
@@ -349,8 +349,9 @@ class TGen:
         return {"t": t, "c": kids}
 
 
-def scan_feats(j, level=0, out=None):
-    """Input classes a template (IR) actually reaches, by the level rule."""
+def scan_feats(j, level=0, out=None, sp=0):
+    """Input classes a template (IR) actually reaches, by the level rule. `sp` is the highest
+    level at which an unquote-splice operator was passed on the way down to this node."""
     out = set() if out is None else out
     h = None
     if j["t"] == "Expr" and j["c"] and j["c"][0]["t"] == "Sym":
@@ -358,17 +359,23 @@ def scan_feats(j, level=0, out=None):
     if h in ("unquote", "unquote-splice"):
         out.add(("splice@%d" if h.endswith("splice") else "unquote@%d") % level)
         if level == 0:
+            if sp >= 2:
+                out.add("splice@>=2-reaching-level-0")
             return out
+        if h.endswith("splice"):
+            sp = max(sp, level)
         level -= 1
         if level == 0:
             out.add("return-to-level-0")
     elif h == "quasiquote":
         out.add("nested-quasiquote")
+        if level + 1 >= 3:
+            out.add("quasiquote-level>=3")
         level += 1
     if "c" in j:
         out.add("in:" + j["t"])
     for c in j.get("c", ()):
-        scan_feats(c, level, out)
+        scan_feats(c, level, out, sp)
     return out
 
 
@@ -424,6 +431,51 @@ def gate(tot, classes, extra, tier):
     missing = [k for k, n in REGRESS_TOTAL.items() if classes.get("regress:" + k, 0) < n]
     if missing:
         return "regression-inputs-did-not-all-run:" + ",".join(missing)
+    if not classes.get("splice@>=2-reaching-level-0"):
+        return "no-case-with-a-splice-at-level>=2-that-reaches-level-0"
+
+
+def chain_cases():
+    """Deterministic part: N = 1..3 nested quasiquotes inside the template (levels 1..3) and every
+    chain of N+1 unquote / unquote-splice operators, in every order, that returns to level 0
+    (~@~~x, ~~@~x, ~~~@x, ~@~@~x ...), in each sequence kind, long form and sugar."""
+    import itertools
+    import random
+    kinds = ["Expr", "List", "Tuple", "Set", "Dict", "FComp", "FStr"]
+    n = 0
+    for depth in (1, 2, 3):
+        for ops in itertools.product(("unquote", "unquote-splice"), repeat=depth + 1):
+            for variant in range(4):
+                n += 1
+                rng = random.Random(f"chain:{n}")
+                last_splice = ops[-1] == "unquote-splice"
+                env = {"v0": gen_value(rng, 1, last_splice) if variant else
+                       ({"p": "list", "v": [{"p": "int", "v": 1}, {"p": "str", "v": "s"}]} if last_splice
+                        else {"p": "int", "v": 7})}
+                form = G.sym("v0")
+                for i, op in enumerate(reversed(ops)):
+                    name = "unquote_splice" if op == "unquote-splice" and (n + i) % 5 == 0 else op
+                    form = G.expr(G.sym(name), form)
+                k1, k2 = kinds[(n + variant) % len(kinds)], kinds[(n // 2 + 3 * variant) % len(kinds)]
+
+                def box(kind, kids):
+                    if kind == "Expr":
+                        return G.expr(G.sym("c"), *kids)
+                    if kind == "FComp":
+                        return {"t": "FComp", "c": kids, "conv": "r", "expr": "e", "ts": False}
+                    if kind == "FStr":
+                        return {"t": "FStr", "c": kids, "b": None, "ts": False}
+                    return {"t": kind, "c": kids}
+                inner = box(k1, [G.sym("a"), form, {"t": "Int", "v": "2"}][: 3 if variant % 2 else 2][::-1 if variant == 2 else 1])
+                for _ in range(depth):
+                    inner = G.expr(G.sym("quasiquote"), inner)
+                tmpl = box(k2, [{"t": "Kw", "v": "k"}, inner]) if variant != 3 else inner
+                case = {"tmpl": tmpl, "env": env, "feat": ["chain:depth%d" % (depth + 1)]}
+                yield case
+                try:
+                    yield dict(case, text=G.to_text(tmpl, random.Random(f"chainsp:{n}")))
+                except G.Unprintable:
+                    pass
 
 
 def cases(seed, tier, shard, nshards):
@@ -433,6 +485,9 @@ def cases(seed, tier, shard, nshards):
             n += 1
             if n % nshards == shard:
                 yield {"tmpl": None, "text": text, "env": env, "regress": key}
+    for n, case in enumerate(chain_cases()):
+        if n % nshards == shard:
+            yield case
     i = 0
     while True:
         rng = rng_for(seed, ID, shard, i)
@@ -582,7 +637,7 @@ def run_case(case):
             return {"ok": None, "classes": ["skip:constructor-refused"]}
         classes.append("kind:ir")
     ir = G.enc(tmpl)
-    feat = scan_feats(ir) | {f for f in case.get("feat", ()) if f.startswith("arg:")
+    feat = scan_feats(ir) | {f for f in case.get("feat", ()) if f.startswith(("arg:", "chain:"))
                              or f in ("underscore-spelling", "quote-wrapper")}
     classes += sorted(feat)
     if _splices_fstring(ir):
